@@ -645,6 +645,12 @@ def _x_specs():
             altvals=[150.0, 7.0, 0.5, 1e-3, 1e-7][: n + 1], nargs_fixed=False)
         add("ShiftedRTPoly/%d" % n, ShiftedRTPoly, [(273.15, 100.0)] + [(c,) for c in rc[:n]], [K] + cur, lambda a, env: RX.shifted_rtpoly(a[0], list(a[1:]), env["T"]), (0, -1, 0),
             altvals=[150.0, 7.0, 50.0, 1e3, 1e5][: n + 1], nargs_fixed=False)
+    # long polynomials (more than ten coefficients): terms 3*(-T/2000)**i and 3*(-200/T)**i stay of order one over 200..2000 K
+    for n in (11, 12, 15):
+        lc = [3.0 * (-1.0 / 2000.0) ** i for i in range(n)]
+        add("TPoly/%d" % n, TPoly, [(c,) for c in lc], [1 / s / K ** i for i in range(n)], lambda a, env: RX.tpoly(list(a), env["T"]), (0, -1, 0), altvals=None, nargs_fixed=False)
+        lr = [3.0 * (-200.0) ** i for i in range(n)]
+        add("RTPoly/%d" % n, RTPoly, [(c,) for c in lr], [K ** i / s for i in range(n)], lambda a, env: RX.rtpoly(list(a), env["T"]), (0, -1, 0), altvals=None, nargs_fixed=False)
     rvars = dict(density=(0.998, u.kg / u.dm3), doserate=(0.15, u.gray / s))
     add("Radiolytic", Radiolytic, [(2.1e-7, 4.5e-8)], [u.mol / u.joule], lambda a, env: RX.radiolytic([a[0]], [0.15], 0.998), (1, -1, 0), variables=rvars, altvals=[9e-8],
         scaled={0: u.per100eV, "density": u.kg / u.metre ** 3, "doserate": u.gray / u.hour})
@@ -849,6 +855,30 @@ def _run_X(res, spec, only_case=None):
             except Exception as ex:
                 obs = _exc_tag(ex)
             report("math/fk", a, T, obs, refs[T], "override(args=None, all keys)", dict(kind="fk"))
+        # ---------------------------- S9: two instances with EQUAL written arguments but separately named ones, combined by + - * /;
+        # one name of the second is overridden: exactly that argument of exactly that instance is replaced
+        if spec["nargs_fixed"] and spec["altvals"] is not None:
+            import operator
+
+            kA = ["nA%d_%s" % (i, name.replace("/", "_")) for i in range(nargs)]
+            kB = ["nB%d_%s" % (i, name.replace("/", "_")) for i in range(nargs)]
+            a2 = [spec["altvals"][0]] + list(a[1:])
+            try:
+                fa, fb = spec["formula"](a, dict(T=T)), spec["formula"](a2, dict(T=T))
+            except RX.OutOfRange:
+                fa = fb = None
+            if fa is not None:
+                for opname, op in (("+", operator.add), ("-", operator.sub), ("*", operator.mul), ("/", operator.truediv)):
+                    if opname == "/" and fb[0] == 0:
+                        continue
+                    res.transitions += 1
+                    ref = (op(fa[0], fb[0]), (abs(fa[1]) + abs(fb[1])) * (1 + abs(fa[0]) + abs(fb[0])) * 4 + 1e-12 * abs(op(fa[0], fb[0])))
+                    try:
+                        comb = op(spec["cls"](_x_args(spec, a, False), unique_keys=kA), spec["cls"](_x_args(spec, a, False), unique_keys=kB))
+                        obs = _x_eval(spec, comb, T, "math", order, extra_vars={kB[0]: a2[0]})
+                    except Exception as ex:
+                        obs = _exc_tag(ex)
+                    report("math/two-instances%s" % opname, a, T, obs, ref, "override-in-combination", dict(kind="two-instances", op=opname))
         # ---------------------------- S7: a required named argument that is not supplied is refused, never silently defaulted
         if spec["nargs_fixed"]:
             ndef = len(getattr(spec["cls"], "argument_defaults", None) or ())
@@ -1078,7 +1108,7 @@ def chunks(tier):
     return out
 
 
-_N_XSPECS = 29  # asserted in run_chunk
+_N_XSPECS = 35  # asserted in run_chunk
 
 
 def run_chunk(chunk, tier):
